@@ -218,6 +218,10 @@ func (server *Server) ZRange(conn *redis.Conn, key string, start int, stop int, 
 	if err != nil {
 		return nil, err
 	}
+	// Reading a missing key must not create it.
+	if !db.HasRecord(key) {
+		return redis.NewArrayMessage(), nil
+	}
 	_, zset, err := db.GetZSetRecord(key)
 	if err != nil {
 		return nil, err
@@ -238,6 +242,9 @@ func (server *Server) ZRangeByScore(conn *redis.Conn, key string, start float64,
 	db, err := server.GetDatabase(conn.Database())
 	if err != nil {
 		return nil, err
+	}
+	if !db.HasRecord(key) {
+		return redis.NewArrayMessage(), nil
 	}
 	_, zset, err := db.GetZSetRecord(key)
 	if err != nil {
@@ -260,17 +267,28 @@ func (server *Server) ZRem(conn *redis.Conn, key string, members []string) (*red
 	if err != nil {
 		return nil, err
 	}
+	if !db.HasRecord(key) {
+		return redis.NewIntegerMessage(0), nil
+	}
 	_, zset, err := db.GetZSetRecord(key)
 	if err != nil {
 		return nil, err
 	}
-	return redis.NewIntegerMessage(zset.Rem(members)), nil
+	removedCount := zset.Rem(members)
+	// A sorted set that became empty no longer exists.
+	if len(zset.members) == 0 {
+		db.RemoveRecord(key)
+	}
+	return redis.NewIntegerMessage(removedCount), nil
 }
 
 func (server *Server) ZScore(conn *redis.Conn, key string, member string) (*redis.Message, error) {
 	db, err := server.GetDatabase(conn.Database())
 	if err != nil {
 		return nil, err
+	}
+	if !db.HasRecord(key) {
+		return redis.NewNilMessage(), nil
 	}
 	_, zset, err := db.GetZSetRecord(key)
 	if err != nil {
